@@ -1,6 +1,10 @@
 package parser
 
-import comb "github.com/moorara/algo/parser/combinator"
+import (
+	"unicode"
+
+	comb "github.com/moorara/algo/parser/combinator"
+)
 
 var (
 	escapedChars = []rune{'\\', '|', '.', '?', '*', '+', '(', ')', '[', ']', '{', '}', '$'}
@@ -136,6 +140,11 @@ func toUnicodeChar(r comb.Result) (comb.Result, bool) {
 		if d, ok := r.Val.(int); ok {
 			c = c<<4 + d
 		}
+	}
+
+	// Eight hex digits can denote a value beyond the last Unicode code point.
+	if c > unicode.MaxRune {
+		return comb.Result{}, false
 	}
 
 	return comb.Result{
@@ -366,6 +375,11 @@ func (p *Parser) expr(in comb.Input) (comb.Output, bool) {
 
 // Parse is the topmost parser combinator for parsing a regular expression read from the input.
 func (p *Parser) Parse(regex string) (comb.Output, bool) {
+	// The empty string is not a regular expression (and there is no input to read from).
+	if len(regex) == 0 {
+		return comb.Output{}, false
+	}
+
 	in := newStringInput(regex)
 	return p.regex(in)
 }
